@@ -35,15 +35,9 @@ from props import c20_translate as TR
 # run), "subset" = the body leaves what the IR can express precisely (calls of closures stored in a list
 # are treated as user callbacks, whose results are protected) - these are covered by the dynamic tie only.
 EXPECTED_ROOTS = {
-    "ode._rearrange_to_explicit_ode": ("defect", [("augmented assignment", "result -= b * y[i]")]),
-    "poisson._solve_poisson_ivp_atomgrid": ("defect", [
-        (".setdefault() on a local container", "ode_params.setdefault('method', 'DOP853')"),
-        (".setdefault() on a local container", "ode_params.setdefault('rtol', 1e-08)"),
-        (".setdefault() on a local container", "ode_params.setdefault('atol', 1e-06)")]),
-    "poisson._solve_poisson_bvp_atomgrid": ("defect", [
-        (".setdefault() on a local container", "ode_params.setdefault('tol', 1e-06)"),
-        (".setdefault() on a local container", "ode_params.setdefault('max_nodes', 50000)"),
-        (".setdefault() on a local container", "ode_params.setdefault('no_derivatives', True)")]),
+    # (the three genuine defects of the originally pinned commit - ode._rearrange_to_explicit_ode `result -= ...`,
+    #  poisson._solve_poisson_{ivp,bvp}_atomgrid `ode_params.setdefault` - are fixed in /repo; their findings are
+    #  recorded as fixed in known_findings.jsonl, so a re-introduction is reported as a new violation)
     "poisson._interpolate_molgrid_helper.sum_of_interpolation_functions": ("subset", [
         ("augmented assignment", "output += interpolate(points)")]),
     "poisson.interpolate_laplacian.sum_of_interpolation_funcs": ("subset", [
@@ -53,11 +47,8 @@ EXPECTED_ROOTS = {
 }
 # functions rejected only because they call / create closures of rejected functions
 EXPECTED_DEPENDENTS = {
-    "ode.solve_ode_ivp", "ode.solve_ode_ivp.func", "ode.solve_ode_bvp", "ode.solve_ode_bvp.func",
-    "ode._transform_and_rearrange_to_explicit_ode",
-    "poisson._interpolate_molgrid_helper", "poisson.solve_poisson_ivp", "poisson.solve_poisson_ivp.<lambda>",
-    "poisson.solve_poisson_bvp", "poisson.solve_poisson_bvp.<lambda>", "poisson.interpolate_laplacian",
-    "molgrid.MolGrid.interpolate", "robust_poisson.solve_poisson_robust",
+    "poisson._interpolate_molgrid_helper", "poisson.solve_poisson_ivp", "poisson.solve_poisson_bvp",
+    "poisson.interpolate_laplacian", "molgrid.MolGrid.interpolate", "robust_poisson.solve_poisson_robust",
 }
 EXPECTED_UNSUPPORTED: set = set()
 
@@ -215,7 +206,8 @@ def run(ctx: Ctx):
     dyn = run_dynamic(ctx, prog, Sg, info)
     if any(a["kind"] != "new-dependent" for a in alarms):
         alarms = [a for a in alarms if a["kind"] != "new-dependent"]  # consequences of the root alarms
-    # ---- unexpected static alarms: look for a concrete failing input among the dynamic observations
+    # ---- unexpected static alarms: look for a concrete failing input among the dynamic observations, then by
+    # a targeted search over systematic variations of the entry points that reach the rejected function
     for a in alarms:
         lines = {(prog.sites[sid]["file"], prog.sites[sid]["line"]) for sid in a["sites"]}
         hit = None
@@ -227,9 +219,9 @@ def run(ctx: Ctx):
             ctx.fail("C20_static", f"static:{a['kind']}:{norm_name(a['func'])}:{hit['key']}", hit["observed"],
                      f"the checker rejects {a['func']} ({a['text']}); concrete input: {hit['text']}",
                      {"static": a, "dynamic": hit, "reproduce": hit.get("repro")})
-        else:
-            ctx.fail("C20_static", f"static:{a['kind']}:{norm_name(a['func'])}", None,
-                     f"{a['kind']}: {a['func']}: {a['text']}", {"static": a}, found_input=False)
+            continue
+        cands = targeted_search(ctx, prog, funs, a, lines, dyn)
+        ctx.broken_tie("C20_static", f"{a['kind']}: {a['func']}: {a['text']}", cands)
     ctx.cov["rule"] = (
         "static: every function/method/nested function/lambda of the 10 anchored modules is translated and checked; "
         "dynamic: one case = one public call with fresh small inputs, run in the modes plain / readonly / same-array / "
@@ -324,6 +316,90 @@ def validate_externals(ctx: Ctx):
     ctx.count("external_assumptions_validated", n)
 
 
+# ====================================================================== targeted search
+def _calls_of(stmts, acc):
+    for s in stmts:
+        k = s[0]
+        if k == "calllib":
+            acc.add(s[2])
+        elif k == "branch":
+            _calls_of(s[1], acc)
+            _calls_of(s[2], acc)
+        elif k == "loop":
+            _calls_of(s[1], acc)
+    return acc
+
+
+def entry_points_reaching(prog, funs, target_name):
+    """names of all program functions that may (transitively) call, or create a closure of, the target"""
+    callers = {}
+    for u, fn in zip(prog.units, funs):
+        for c in _calls_of(fn["body"], set()):
+            callers.setdefault(c, set()).add(u.fid)
+    tgt = [u.fid for u in prog.units if u.name == target_name]
+    dist = {f: 0 for f in tgt}
+    queue = list(tgt)
+    while queue:
+        f = queue.pop(0)
+        for g in sorted(callers.get(f, ())):
+            if g not in dist:
+                dist[g] = dist[f] + 1
+                queue.append(g)
+    return {norm_name(prog.units[f].name): d for f, d in dist.items()}
+
+
+def targeted_search(ctx: Ctx, prog, funs, alarm, lines, dyn):
+    """systematic variations (coefficient patterns / orders / transforms / solver methods / callbacks returning
+    their argument, a cached or a read-only array for the ODE and Poisson entry points; dtype / contiguity /
+    container / length-1 / untabulated degrees and sizes / angular method for constructors) of every public entry
+    point that reaches the rejected function; returns candidates for Ctx.broken_tie, best match first"""
+    import random
+
+    from props import c20_dyn as DY
+
+    entries = entry_points_reaching(prog, funs, alarm["func"])
+    cases = DY.make_cases(random.Random(f"C20:targeted:{ctx.seed}"), quick=False, only_funcs=entries, targeted=True)
+    done = dyn.get("ran", set())
+    cases = [c for c in cases if c.cid not in done]
+    random.Random(f"C20:order:{ctx.seed}").shuffle(cases)
+    cases.sort(key=lambda c: min([entries.get(n, 99) for n in [c.func] + list(c.also)]))  # nearest entry points first (stable)
+    budget = 80.0 if ctx.quick else 900.0
+    t0 = time.time()
+    exact, other = [], []
+    nrun = 0
+    for case in cases:
+        if time.time() - t0 > budget or exact:
+            break
+        for mode in DY.MODES:
+            res = DY.run_case(case, mode)
+            if res.get("skipped"):
+                continue
+            nrun += 1
+            ctx.case(("targeted", case.cid, mode))
+            for o in res["observations"]:
+                if o["kind"] not in VIOLATION_KINDS:
+                    continue
+                if not o.get("site") and o.get("via") and o["kind"] == "readonly_error":
+                    o["site"] = o["via"]
+                st = o.get("site") or ""
+                key = f"{case.cid}|{mode}|{o['kind']}|{o.get('what') or ''}"
+                text = (f"{case.func}: {o['kind']} ({o.get('what')}) in mode {mode}" + (f", write site {st}" if st else "") +
+                        f": {o.get('detail', '')}")
+                replay = {"reproduce": case.repro, "mode": mode, "observation": o, "static": alarm,
+                          "callback_variants": {k: str(getattr(case, k)) for k in ("_cbarg_src", "_cbcache_src", "alias_pairs") if getattr(case, k, None)}}
+                cand = (key, st or o["kind"], text, replay)
+                if st and any(st.startswith(f"{f}:") and st.endswith(f":{ln}") for f, ln in lines):
+                    exact.append(cand)
+                else:
+                    other.append(cand)
+            if exact:
+                break
+    ctx.notes.append(f"targeted search for {alarm['func']}: {len(entries)} entry points, {len(cases)} candidate cases, {nrun} runs, "
+                     f"{len(exact)} exact / {len(other)} other hits in {time.time() - t0:.1f}s")
+    ctx.count("targeted_runs", nrun)
+    return exact + other
+
+
 # ====================================================================== dynamic
 VIOLATION_KINDS = {"arg_mutated", "callback_result_mutated", "callback_arg_mutated", "readonly_error", "alias_result_differs"}
 
@@ -335,7 +411,7 @@ def run_dynamic(ctx: Ctx, prog, Sg, info):
 
     from props import c20_dyn as DY
 
-    cases = DY.make_cases(random.Random(f"C20:{ctx.seed}"), ctx.quick)
+    cases = DY.make_cases(random.Random(f"C20:{ctx.seed}"), ctx.quick, targeted=not ctx.quick)
     okmap = {norm_name(u.name): bool(Sg[u.fid]["ok"]) for u in prog.units}
     # static failing sites (file, line) of all rejected functions
     bad_lines = set()
@@ -438,7 +514,7 @@ def run_dynamic(ctx: Ctx, prog, Sg, info):
     for u in prog.units:
         nm = norm_name(u.name)
         exp = EXPECTED_ROOTS.get(nm)
-        if exp and exp[0] == "defect" and not Sg[u.fid]["ok"]:
+        if exp and exp[0] == "defect" and not Sg[u.fid]["ok"] and u.name in info["roots"]:
             lines = set()
             for sid, w in AI.all_bad_sites(Sg, {"nparams": u.nparams, "nvars": u.nvars, "body": u.ir}):
                 if w in (1, 2):
@@ -448,4 +524,4 @@ def run_dynamic(ctx: Ctx, prog, Sg, info):
                          f"the checker rejects {u.name} (pinned as a genuine defect) but no public call of the dynamic "
                          f"harness exhibits the write", found_input=False)
     ctx.cov["dynamic_groups"] = [r["text"] for r in out]
-    return {"observations": out}
+    return {"observations": out, "ran": {c.cid for c in cases}}
